@@ -656,7 +656,7 @@ def run_shard(spec, seed, tier):
                 new.append(f)
         return new
 
-    n = 600 if tier == "quick" else 3000
+    n = 800 if tier == "quick" else 5000
     found = core.hyp_search(_strategies(), body, seed, n)
     if found:
         res.failures.extend(found)
